@@ -33,6 +33,8 @@ def check_earley(ctx, res):
         res.case(['c08', g, text, lexer], nontrivial=True,
                  sample={'grammar': g, 'text': text, 'lexer': lexer, 'error': rec['err'], 'pos': rec.get('pos'), 'expected': rec.get('expected')} if last > 0 and last < n else None)
         res.count('earley_%s_%s' % (lexer, rec['err']))
+        # Props.C08.earley_expected_exact applies where Lean's certificate checker accepts the grammar as productive: there the model's set IS the set of legal next terminals
+        res.count('expected_set_exact_by_theorem' if m.get('productive') is True else 'expected_set_backed_only_unproductive_grammar')
         where = {'grammar': g, 'start': rec.get('start_sym', 'start'), 'starts': rec.get('starts', ['start']), 'text': text, 'lexer': lexer, 'code': {k: rec.get(k) for k in ('err', 'pos', 'line', 'column', 'expected', 'token_type')}}
         if last == n:
             want = {'err': 'UnexpectedEOF', 'expected': exp}
